@@ -245,6 +245,13 @@ func c17layouts(e *env) {
 			case req == 2 && li%4 == 3:
 				kind = "empty"
 				files = nil
+			case req == 1 && li%3 == 1:
+				// the requested package type-checks on its own, a package it imports does not
+				kind = "typeerror_in_import"
+				writeFile(filepath.Join(modRoot, "illtyped", "b.go"), "package illtyped\n\nvar Count int = \"not an int\"\n\nconst Other = 3\n")
+				f := filepath.Join(modRoot, "user", "a.go")
+				writeFile(f, "package user\n\nimport \"example.com/org/mod/illtyped\"\n\nconst Twice = 2 * illtyped.Other\n\ntype T struct{ A int }\n")
+				files = []string{f}
 			}
 			spelled := append([]string(nil), files...)
 			check(os.Chdir(modRoot))
@@ -300,8 +307,11 @@ func c17layouts(e *env) {
 					obs = "LsCrash"
 				}
 			default:
+				if kind == "missing" || kind == "nongo" || kind == "typeerror" || kind == "typeerror_in_import" {
+					e.m.fail(oracleFailure{What: "LoadSources returns no error for a request of kind " + kind + " (missing files, non-Go files and packages with type errors must be reported)", Input: input})
+				}
 				if kind != "ok" {
-					// not an error although an error case was requested: non-Go files may legitimately load nothing
+					// not an error although an error case was requested (empty request)
 					e.m.count("layout_" + kind + "_accepted")
 				}
 				// oracles
